@@ -121,7 +121,8 @@ def reference(col, est, alpha, method):
         return quantile_linear(fin, alpha / 2), quantile_linear(fin, 1 - alpha / 2), 0.0
     p0 = sum(1 for x in fin if x <= est) / n
     z0 = norm_ppf(p0)
-    zl, zu = norm_ppf(alpha / 2), norm_ppf(1 - alpha / 2)
+    zl = norm_ppf(alpha / 2)
+    zu = -zl  # the upper alpha/2 point, through the lower tail (1 - alpha/2 would round to 1 for tiny alpha)
     pole = 0.0
     if method == "bc":
         lo, up = 2 * z0 + zl, 2 * z0 + zu
@@ -266,6 +267,62 @@ def check(case):
     return dict(nontrivial=nontrivial, labels=labels)
 
 
+# ------------------------------------------------------------------ clause: corners
+@st.composite
+def _corner_cases(draw):
+    kind = draw(st.sampled_from(["tiny-alpha", "tiny-alpha", "int8", "bool", "longdouble"]))
+    n = draw(st.integers(3, 30))
+    vals = [math.exp(x) for x in draw(st.lists(st.floats(min_value=-2, max_value=3), min_size=n, max_size=n))]
+    return dict(kind=kind, vals=vals, alpha=draw(st.sampled_from([1e-17, 2.0 ** -60, 1e-100, 1e-300, 1e-16, 3e-16])),
+                method=draw(st.sampled_from(["bc", "bca", "quantile"])),
+                est=draw(st.sampled_from(["inside", "below", "above"])),
+                ints=draw(st.lists(st.sampled_from([-128, 127, -100, 100, 0, 1, -1, 120, -120]), min_size=2, max_size=8)),
+                alpha2=draw(st.sampled_from([0.5, 0.1, 0.9])))
+
+
+def check_corners(case):
+    from score_analysis.utils import bootstrap_ci
+
+    kind = case["kind"]
+    if kind == "tiny-alpha":
+        # alpha is any number in (0, 1): for alpha below 2.2e-16 the level 1 - alpha/2 is not a double
+        vals, al, method = case["vals"], case["alpha"], case["method"]
+        est = {"inside": sorted(vals)[len(vals) // 2], "below": min(vals) - 1.0, "above": max(vals) + 1.0}[case["est"]]
+        got = np.asarray(bootstrap_ci(np.asarray(vals), est, al, method=method), dtype=float)
+        lo, up, pole = reference(vals, est, al, method)
+        ctx = f"method={method} alpha={al!r} estimate={est!r} replicates={vals}"
+        require(not np.isnan(got).any(), "bci:nan", f"{ctx}: got {got.tolist()}")
+        require(min(vals) <= got[0] <= max(vals) and min(vals) <= got[1] <= max(vals), "bci:outside-replicate-range",
+                f"{ctx}: {got.tolist()}")
+        if not math.isnan(lo):
+            scale = max(abs(x) for x in vals)
+            require(abs(got[0] - lo) <= 1e-9 * scale and abs(got[1] - up) <= 1e-9 * scale, "bci:formula",
+                    f"{ctx}: got {got.tolist()} documented formula gives [{lo!r}, {up!r}]")
+        return dict(nontrivial=True, labels=["tiny-alpha", f"method:{method}"])
+    if kind in ("int8", "bool"):
+        # replicates of a count-valued / flag-valued metric held in a small type: the limits are those
+        # of the same numbers held as float64
+        raw = case["ints"] if kind == "int8" else [v > 0 for v in case["ints"]]
+        th = np.asarray(raw, dtype=np.int8 if kind == "int8" else bool)
+        ref = np.asarray(raw, dtype=float)
+        est = float(ref[0])
+        for method in ("quantile", "bc", "bca"):
+            got = np.asarray(bootstrap_ci(th, est, case["alpha2"], method=method), dtype=float)
+            exp = np.asarray(bootstrap_ci(ref, est, case["alpha2"], method=method), dtype=float)
+            require(np.allclose(got, exp, rtol=1e-12, atol=1e-12, equal_nan=True), "bci:dtype-of-replicates",
+                    f"method={method} alpha={case['alpha2']} replicates {raw} as {th.dtype}: {got.tolist()}, as float64: {exp.tolist()}")
+        return dict(nontrivial=len(set(raw)) > 1, labels=[kind])
+    # long-double replicates next to a long-double estimate: "not exceeding the estimate" is decided in that precision
+    if np.finfo(np.longdouble).nmant <= 52:
+        return dict(nontrivial=False, labels=["no-extended-precision"])
+    ld = np.longdouble
+    th = np.asarray([ld(1) + ld(2) ** -60, ld(2), ld(3), ld(1) + ld(2) ** -59], dtype=ld)
+    got = np.asarray(bootstrap_ci(th, ld(1), case["alpha2"], method="bc"), dtype=float)
+    require(got[0] == got[1] == float(th.min()), "bci:formula",
+            f"long-double replicates all above the long-double estimate 1 (p0 = 0): bc limits {got.tolist()}, expected the smallest replicate twice")
+    return dict(nontrivial=True, labels=["longdouble"])
+
+
 def check_errors(case):
     from score_analysis.utils import bootstrap_ci
 
@@ -307,6 +364,8 @@ PROP = Prop(
     clauses=[
         Clause("formulas", check, strategy=_cases(), quick=700, thorough=14000, quick_shards=4,
                min_nontrivial=200, doc="documented formulas and their corollaries"),
+        Clause("corners", check_corners, strategy=_corner_cases(), quick=150, thorough=3000, quick_shards=2,
+               min_nontrivial=50, doc="alpha below 2.2e-16; int8 / bool / long-double replicates"),
         Clause("errors", check_errors, strategy=_err_cases, quick=30, thorough=240, shards=1,
                min_nontrivial=5, doc="bc/bca need theta_hat; unknown method"),
     ],
